@@ -36,8 +36,8 @@ var (
 	verifFPs     = [3]string{verifFP1, verifFP2, "1111111111111111111111111111111111111111"}
 )
 
-func verifNewDecoder(r io.Reader) *json.Decoder         { return new(json.Decoder) }
-func verifDisallowUnknownFields(d *json.Decoder)       {}
+func verifNewDecoder(r io.Reader) *json.Decoder  { return new(json.Decoder) }
+func verifDisallowUnknownFields(d *json.Decoder) {}
 func verifDecoderDecode(d *json.Decoder, v interface{}) error {
 	i := verifRecIdx
 	verifRecIdx++
